@@ -1,22 +1,20 @@
-(* C14: the recorded finding classes as decidable predicates (definitions only).
-   `cls_* = 0` is the hypothesis of the correctness theorems (Proof/PredCorrect*.v): outside
-   every class the implementation model equals the reference semantics.  The same functions
-   are known_class in Corr/C14.v, so the check and the theorems talk about one partition.
+(* C14: side conditions of the correctness theorems and the finding classes, as decidable
+   predicates (definitions only).  The same functions are known_class in Corr/C14.v, so the
+   check and the theorems talk about one partition.
 
-   class  mechanism in /repo (all confirmed on the real code, see known_findings.d/C14.json)
-     1    eval_expr has no arm for NOT (nor for a bare NULL / column): `_ => true`
-     2    compare_values: NULL against NULL is Ordering::Equal, so = <= >= are TRUE
-     3    values_equal(NULL, NULL) = true: NULL IN (.., NULL, ..) is TRUE
-     4    NOT IN / NOT BETWEEN / NOT LIKE negate a two-valued result: TRUE with a NULL operand
-     5    a predicate used as an operand (IS [NOT] NULL of a comparison ...) is never NULL
-     6    select list: an UNKNOWN sub-predicate is computed as FALSE (never NULL)
-     7    constant folding compares literals by kind and text: NULL <> 1 is TRUE, 1 = 1.0 is FALSE
-     8    a predicate folded to constant FALSE makes planning fail (the query returns an error)
-     9    LIKE: a pattern '%' is first compared literally with the text character
-    10    IN list: numbers closer than f64::EPSILON are equal
-    11    the literal -9223372036854775808 does not parse
-    12    NOT binds tighter than comparison in the parser (bare `NOT a = 1`)
-    99    outside the implementation model (no finding; such cases are never generated) *)
+   History: classes 1..12 were the defects of the original tree (eval_expr `_ => true`, NULL = NULL
+   TRUE, NULL IN (.., NULL) TRUE, NOT IN / NOT BETWEEN / NOT LIKE with NULL TRUE, (p) IS NULL never
+   UNKNOWN, select list UNKNOWN -> FALSE, constant folding of NULL <> 1 and 1 = 1.0, folded FALSE
+   => planner error, LIKE '%' literal-first, IN epsilon equality, i64::MIN literal, NOT
+   precedence).  They are fixed in /repo (known_findings.d/C14.json, status "fixed"); their
+   witnesses stay in the corpus and must pass.
+
+   class  mechanism in /repo (confirmed on the real code)
+    13    arithmetic over NULL evaluates to `None` instead of Value::Null (eval_arithmetic_op) and
+          the BETWEEN arm of eval_tv propagates a `None` bound with `?`: x [NOT] BETWEEN (NULL + 1)
+          AND h is UNKNOWN even when x > h already makes it FALSE (TRUE for NOT BETWEEN)
+    99    outside the modelled expression language (no finding; never generated): an integer
+          literal outside i64, a non-finite float literal, an empty IN list, a boolean cell *)
 From Coq Require Import ZArith List Bool.
 From TV Require Import Model.SqlSpec Model.PredImpl.
 Import ListNotations.
@@ -29,7 +27,6 @@ Definition code_of_tv (o : option tv) : Z :=
 Definition spec_vals (e : expr) (t : table) : list Z := map (fun r => code_of_tv (sem3 e r)) t.
 
 Definition first_nz (a b : Z) : Z := if a =? 0 then b else a.
-
 Definition is_vnull (o : option value) : bool := match o with Some VNull => true | _ => false end.
 
 (* the spec value as the implementation represents it *)
@@ -42,134 +39,46 @@ Definition inj (v : value) : ivalue :=
   | VBool b => ib b
   end.
 
-(* ---------------------------------------------------------------- scalar operand position *)
-Fixpoint cls_v (e : expr) (r : row) : Z :=
+(* ---------------------------------------------------------------- the modelled language *)
+(* expressions the harness can print and SQL accepts: integer literals in i64, finite float
+   literals, IN lists with at least one item *)
+Fixpoint wf_expr (e : expr) : bool :=
   match e with
-  | ECol i => match nth_error r i with Some (VBool _) => 99 | _ => 0 end
-  | ELit (VInt z) => if z =? - 2 ^ 63 then 11 else if i64_ok z then 0 else 99
-  | ELit (VFloat b) => if f_finite b then 0 else 99
-  | ELit _ => 0
-  | EArith _ a b => first_nz (cls_v a r) (cls_v b r)
-  | _ => 5
+  | ECol _ => true
+  | ELit (VInt z) => i64_ok z
+  | ELit (VFloat b) => f_finite b
+  | ELit _ => true
+  | EArith _ a b | ECmp _ a b | EAnd a b | EOr a b | ELike _ a b => wf_expr a && wf_expr b
+  | ENot a | EIsNull _ a => wf_expr a
+  | EIn _ a l => wf_expr a && negb (match l with [] => true | _ => false end) && forallb wf_expr l
+  | EBetween _ a lo hi => wf_expr a && wf_expr lo && wf_expr hi
   end.
-Fixpoint cls_vl (l : list expr) (r : row) : Z :=
-  match l with [] => 0 | i :: l' => first_nz (cls_v i r) (cls_vl l' r) end.
+(* rows of BIGINT / DOUBLE PRECISION / TEXT cells *)
+Definition plain_value (v : value) : bool := match v with VBool _ => false | _ => true end.
+Definition plain_row (r : row) : bool := forallb plain_value r.
+Definition plain_table (t : table) : bool := forallb plain_row t.
 
-(* the operand evaluates to Some(Value::Null) in eval_value (a NULL cell or the literal) *)
-Definition dnull (e : expr) (r : row) : bool :=
+(* ---------------------------------------------------------------- class 13 *)
+Definition is_arith (e : expr) : bool := match e with EArith _ _ _ => true | _ => false end.
+Definition null_arith (e : expr) (r : row) : bool := is_arith e && is_vnull (eval e r).
+Fixpoint cls13 (e : expr) (r : row) : Z :=
   match e with
-  | ECol i => is_vnull (nth_error r i)
-  | ELit VNull => true
-  | _ => false
-  end.
-Definition null_eq_op (op : cmpop) : bool :=
-  match op with CEq | CLe | CGe => true | _ => false end.
-
-(* IN list: values_equal and the reference equality differ on two defined, non-NULL values *)
-Definition eq_differs (x y : option value) : bool :=
-  match x, y with
-  | Some vx, Some vy =>
-      match cmp_values vx vy with
-      | Some (Some c) => xorb (values_equal (inj vx) (inj vy)) (match c with Eq => true | _ => false end)
-      | _ => false
-      end
-  | _, _ => false
-  end.
-
-Definition in_class (neg : bool) (a : expr) (l : list expr) (r : row) : Z :=
-  first_nz
-    (if neg then (if is_vnull (eval a r) || existsb (fun i => is_vnull (eval i r)) l then 4 else 0)
-     else (if dnull a r && existsb (fun i => dnull i r) l then 3 else 0))
-    (if existsb (fun i => eq_differs (eval a r) (eval i r)) l then 10 else 0).
-
-Definition has_pct (s : list Z) : bool := existsb (fun c => c =? 37) s.
-Definition like_class (neg : bool) (a p : expr) (r : row) : Z :=
-  first_nz
-    (if neg && (is_vnull (eval a r) || is_vnull (eval p r)) then 4 else 0)
-    (match eval a r, eval p r with
-     | Some (VText s), Some (VText q) => if has_pct s && has_pct q then 9 else 0
-     | _, _ => 0
-     end).
-
-Definition between_class (neg : bool) (a lo hi : expr) (r : row) : Z :=
-  if neg && (is_vnull (eval a r) || is_vnull (eval lo r) || is_vnull (eval hi r)) then 4 else 0.
-
-(* ---------------------------------------------------------------- WHERE: predicate position *)
-Fixpoint cls_p (e : expr) (r : row) : Z :=
-  match e with
-  | EAnd a b | EOr a b => first_nz (cls_p a r) (cls_p b r)
-  | ENot _ => 1
-  | ELit (VBool _) => 0
-  | ELit _ | ECol _ | EArith _ _ _ => 1
-  | ECmp op a b =>
-      first_nz (cls_v a r) (first_nz (cls_v b r)
-        (if dnull a r && dnull b r && null_eq_op op then 2 else 0))
-  | EIsNull _ a => cls_v a r
-  | EIn neg a l => first_nz (cls_v a r) (first_nz (cls_vl l r) (in_class neg a l r))
-  | EBetween neg a lo hi =>
-      first_nz (cls_v a r) (first_nz (cls_v lo r) (first_nz (cls_v hi r) (between_class neg a lo hi r)))
-  | ELike neg a p => first_nz (cls_v a r) (first_nz (cls_v p r) (like_class neg a p r))
-  end.
-
-(* row-independent part: NOT / non-boolean leaves in predicate position, literal comparisons
-   that constant folding gets wrong *)
-Definition same_kind (a b : value) : bool :=
-  match a, b with
-  | VInt _, VInt _ | VFloat _, VFloat _ | VText _, VText _ | VBool _, VBool _ => true
-  | _, _ => false
-  end.
-Fixpoint cls_syn (e : expr) : Z :=
-  match e with
-  | EAnd a b | EOr a b => first_nz (cls_syn a) (cls_syn b)
-  | ENot _ => 1
-  | ELit (VBool _) => 0
-  | ELit _ | ECol _ | EArith _ _ _ => 1
-  | ECmp (CEq | CNe) a b =>
-      match as_literal a, as_literal b with
-      | Some x, Some y => if same_kind x y then 0 else 7
-      | _, _ => 0
-      end
-  | _ => 0
+  | ECol _ | ELit _ => 0
+  | EArith _ a b | ECmp _ a b | EAnd a b | EOr a b | ELike _ a b => first_nz (cls13 a r) (cls13 b r)
+  | ENot a | EIsNull _ a => cls13 a r
+  | EIn _ a l =>
+      first_nz (cls13 a r)
+        ((fix go (l : list expr) : Z := match l with [] => 0 | i :: l' => first_nz (cls13 i r) (go l') end) l)
+  | EBetween _ a lo hi =>
+      first_nz (if null_arith lo r || null_arith hi r then 13 else 0)
+        (first_nz (cls13 a r) (first_nz (cls13 lo r) (cls13 hi r)))
   end.
 
 Fixpoint first_row (f : row -> Z) (t : table) : Z :=
   match t with [] => 0 | r :: t' => first_nz (f r) (first_row f t') end.
 
-(* SELECT * FROM t WHERE e, printed in style sty *)
-Definition cls_where (sty : Z) (e : expr) (t : table) : Z :=
-  first_nz (if (sty =? 1) && has_bare e then 12 else 0)
-  (first_nz (cls_syn e)
-  (first_nz (match fold_iter 10 e with PNone => 8 | _ => 0 end)
-            (first_row (cls_p e) t))).
-
-(* ---------------------------------------------------------------- select list: value position *)
-Definition unk (e : expr) (r : row) : Z :=
-  match sem3 e r with Some UU => 6 | _ => 0 end.
-
-Fixpoint cls_s (e : expr) (r : row) : Z :=
-  match e with
-  | EAnd a b | EOr a b => first_nz (cls_s a r) (first_nz (cls_s b r) (unk e r))
-  | ENot a => first_nz (cls_s a r) (unk e r)
-  | ELit (VBool _) => 0
-  | ELit VNull => 6
-  | ELit _ | ECol _ | EArith _ _ _ => 99
-  | ECmp _ a b => first_nz (cls_v a r) (first_nz (cls_v b r) (unk e r))
-  | EIsNull _ a => cls_v a r
-  | EIn _ a [] => 99                         (* not SQL; never generated *)
-  | EIn _ a l =>
-      first_nz (cls_v a r) (first_nz (cls_vl l r) (first_nz (unk e r)
-        (if existsb (fun i => eq_differs (eval a r) (eval i r)) l then 10 else 0)))
-  | EBetween _ a lo hi =>
-      first_nz (cls_v a r) (first_nz (cls_v lo r) (first_nz (cls_v hi r)
-        (if is_vnull (eval a r) || is_vnull (eval lo r) || is_vnull (eval hi r) then 6 else 0)))
-  | ELike _ a p =>
-      first_nz (cls_v a r) (first_nz (cls_v p r) (first_nz (unk e r)
-        (match eval a r, eval p r with
-         | Some (VText s), Some (VText q) => if has_pct s && has_pct q then 9 else 0
-         | _, _ => 0
-         end)))
-  end.
-
-(* SELECT id, (e) FROM t, printed in style sty *)
-Definition cls_select (sty : Z) (e : expr) (t : table) : Z :=
-  first_nz (if (sty =? 1) && has_bare e then 12 else 0) (first_row (cls_s e) t).
+(* known_class of a query (either shape, either printing style) *)
+Definition cls_query (e : expr) (t : table) : Z :=
+  if wf_expr e && plain_table t then first_row (cls13 e) t else 99.
+Definition cls_where (sty : Z) (e : expr) (t : table) : Z := cls_query e t.
+Definition cls_select (sty : Z) (e : expr) (t : table) : Z := cls_query e t.
